@@ -108,6 +108,29 @@ def run_tlc(ctx, module, cfg, workers=8, heap=6, timeout=1200, extra=None, files
     return res
 
 
+APALACHE = shutil.which("apalache-mc") or "/opt/veriftools/apalache/bin/apalache-mc"
+
+
+def run_apalache(ctx, module, cinit, init, inv, length, timeout=900, name=None):
+    """One Apalache obligation. Returns "ok", "error" (a counterexample was found) or "unknown" (tool missing, timeout, crash)."""
+    d = ctx.sub("apa-" + (name or "%s-%s-%s-%d" % (cinit, init, inv, length)))
+    for f in os.listdir(SPECS):
+        if f.endswith(".tla"):
+            shutil.copy(os.path.join(SPECS, f), d)
+    cmd = [APALACHE, "check", "--cinit=" + cinit, "--init=" + init, "--inv=" + inv, "--length=%d" % length,
+           "--out-dir=" + os.path.join(d, "out"), module]
+    t0 = time.time()
+    try:
+        p = subprocess.run(cmd, cwd=d, stdout=subprocess.PIPE, stderr=subprocess.STDOUT, text=True, timeout=timeout)
+        out = p.stdout
+    except (subprocess.TimeoutExpired, OSError) as e:
+        out = "not completed: %s" % e
+    res = "ok" if "The outcome is: NoError" in out else "error" if "The outcome is: Error" in out else "unknown"
+    shutil.rmtree(os.path.join(d, "out"), ignore_errors=True)
+    log("  Apalache %-18s %-8s => %-8s length %d  %5.1fs  %s" % (cinit, init, inv, length, time.time() - t0, res))
+    return res, out
+
+
 def model_check(ctx, module, cfg, expect_ok=True, **kw):
     """Design-level run. A violated invariant here is a defect of the
     specification (or of the intended design), not of the code: exit 2."""
